@@ -341,15 +341,15 @@ fn debug_class(cls: &str, text: &dyn Fn() -> String) {
 /// `HBox::pack` is generic over the font; the harness uses two fonts (lattice, cmr10 for self-validation).
 trait FontDyn: Sync {
     fn pack(&self, list: Vec<ds::Horizontal>, pw: ds::PackWidth) -> ds::HBox;
-    fn metrics(&self, c: char) -> Option<(i64, i64, i64)>;
+    fn metrics(&self, c: char, font: u32) -> Option<(i64, i64, i64)>;
     fn unit(&self) -> i32;
 }
 impl FontDyn for conv::Font {
     fn pack(&self, list: Vec<ds::Horizontal>, pw: ds::PackWidth) -> ds::HBox {
         ds::HBox::pack(self, list, pw)
     }
-    fn metrics(&self, c: char) -> Option<(i64, i64, i64)> {
-        conv::font_fn(self.unit)(c)
+    fn metrics(&self, c: char, font: u32) -> Option<(i64, i64, i64)> {
+        conv::font_fn(self.unit)(c, font)
     }
     fn unit(&self) -> i32 {
         self.unit
@@ -357,7 +357,7 @@ impl FontDyn for conv::Font {
 }
 
 fn check_list(list_idx: u64, list: &[ds::Horizontal], acc: &mut Acc) {
-    let mlist = match conv::to_model(list, &|c| FONT.metrics(c)) {
+    let mlist = match conv::to_model_drop_missing(list, &|c, f| FONT.metrics(c, f)) {
         Ok(m) => m,
         Err(_) => {
             acc.skipped += 1;
@@ -436,7 +436,7 @@ fn self_validate(ctx: &mut Ctx) -> u64 {
             let ds::Horizontal::VBox(v) = top else { continue };
             for item in &v.list {
                 let ds::Vertical::HBox(line) = item else { continue };
-                let ml = match conv::to_model(&line.list, &|c| metrics.get(&(c as u32 as u8)).copied()) {
+                let ml = match conv::to_model(&line.list, &|c, _f| metrics.get(&(c as u32 as u8)).copied()) {
                     Ok(m) => m,
                     Err(e) => {
                         ctx.machinery_error(format!("self-validation {name}: {e}"));
@@ -506,7 +506,7 @@ fn main() {
             eprintln!("replay: cannot decode the case");
             std::process::exit(2);
         };
-        match conv::to_model(&list, &|c| FONT.metrics(c)) {
+        match conv::to_model_drop_missing(&list, &|c, f| FONT.metrics(c, f)) {
             Ok(ml) => check_pack(0, &list, &ml, t, &FONT, &mut acc),
             Err(e) => {
                 eprintln!("replay: {e}");
